@@ -27,7 +27,8 @@ CROSS = {
             ("C16", "R4_helpers", "the limits are compared with amounts net of the Token-2022 transfer fee, which is rounded up"),
             ("C06", "R4_swap_transfers", "what is compared with the limit must be what is transferred"),
             ("C16", "R5_tlv_reader", "the fee schedule of the current epoch decides what the trader pays and receives")],
-    "C05": [("C06", "R3_booking_side", "the tick stored with the pool is the tick the loop computed the liquidity for"),
+    "C05": [("C07", "R5_credit", "the position update carries the position's new liquidity on every path, also when a fee delta overflows"),
+            ("C06", "R3_booking_side", "the tick stored with the pool is the tick the loop computed the liquidity for"),
             ("C04", "R1e_mutated_accounts_are_mut", "an update that is not written back leaves the pool's liquidity and ticks at their old values"),
             ("C13", "R6_account_wiring", "ticks written before the array is grown are cut off by the resize"),
             ("C13", "R2_shift_bitmap_pairing", "a de-initialised dynamic slot that keeps a stray flag is a tick with garbage net / gross"),
@@ -60,7 +61,8 @@ CROSS = {
             ("C19", "R1c_pool_initialize", "a pool is only created at a price inside the published bounds"),
             ("C08", "R4_estimate", "range bounds are priced by the one tick-to-price function"),
             ("C14", "R6_stepping", "a tick-group boundary is priced by the one tick-to-price function, whichever direction the step runs")],
-    "C10": [("C13", "R5_shared_checks", "fixed and dynamic arrays must refuse the same lookups"),
+    "C10": [("C13", "R2_shift_bitmap_pairing", "the swap finds a dynamic array's ticks through its bitmap: a bit cleared or left behind by an update is a tick crossed or skipped wrongly"),
+            ("C13", "R5_shared_checks", "fixed and dynamic arrays must refuse the same lookups"),
             ("C05", "R5_crossing", "an initialised tick the swap reaches is crossed, whatever else the step did"),
             ("C06", "R3_booking_side", "the tick index stored with the pool is the one the loop ended on: the next swap's search starts there"),
             ("C03", "R7_amount_and_limit_wiring", "one pass of the swap loop per instruction: a second pass over the same arrays crosses every tick back")],
@@ -90,7 +92,8 @@ CROSS = {
             ("xfer", "R_cpi_builders", "checked transfers carry the mint, its decimals and - iff it has a hook - the hook accounts"),
             ("events", "R_events", "the amounts and transfer fees reported are those of the same token side"),
             ("C06", "R4_swap_transfers", "the amounts moved by a two-hop are each leg's own input and output")],
-    "C17": [("C04", "R1e_mutated_accounts_are_mut", "the second pool of a two-hop must be written back like the first"),
+    "C17": [("C15", "R5b_remaining_accounts", "each leg of a two-hop accepts the supplemental tick arrays a single swap accepts (its own list, its own limit)"),
+            ("C04", "R1e_mutated_accounts_are_mut", "the second pool of a two-hop must be written back like the first"),
             ("C15", "R3_back_references", "each leg's oracle is that leg's pool's own"),
             ("C03", "R1_threshold_table", "the two-hop's limit is compared with the last leg's output / the first leg's input"),
             ("C14", "R4_gates", "a leg that could not trade on its own must stop the two-hop"),
